@@ -6,10 +6,11 @@ CONSTANTS
   EscAware = FALSE
   PA = {123, 125, 91, 93, 34, 92, 49, 44, 58}
   LP = 4
+  LP1 = 3
   LP2 = 1
   HA = {123, 125, 91, 93, 34, 92, 49, 44, 32}
-  LH = 1
-  LHR = 5
+  LH = 0
+  LHR = 0
   Kinds = {"raw"}
 SPECIFICATION Spec
 INVARIANTS RoundTrip
